@@ -14,6 +14,19 @@ From CG Require Import Model.BashSem.
 From CG Require Import Model.ChainTables.
 From CG Require Import Model.C17Witness.
 From CG Require Import Spec.Invocations.
+From CG Require Import Spec.Mistakes.
+From CG Require Import Spec.Warnings.
+From CG Require Import Model.Minimize.
+From CG Require Import Spec.DfaEquiv.
+From CG Require Import Spec.MinimizeSpec.
+From CG Require Import Model.Regex.
+From CG Require Import Model.Subset.
+From CG Require Import Spec.Lang.
+From CG Require Import Model.Lexer.
+From CG Require Import Model.Parser.
+From CG Require Import Spec.Printer.
+From CG Require Import Model.Ambiguity.
+From CG Require Import Model.Driver.
 (* add new Require lines above this line *)
 Require Import ExtrOcamlBasic ExtrOcamlString.
 Extraction Language OCaml.
@@ -44,5 +57,42 @@ Separate Extraction
   C17Witness.w1
   C17Witness.w2
   Invocations.spec_run
+  Mistakes.present
+  Mistakes.specs_have_command_plain
+  Warnings.unused_plain
+  Warnings.unused_for_shell
+  Warnings.undefined_reported
+  Minimize.minimize
+  Minimize.do_minimize
+  DfaEquiv.validate
+  DfaEquiv.equiv_dec
+  DfaEquiv.trim_dec
+  DfaEquiv.distinct_dec
+  DfaEquiv.states
+  MinimizeSpec.wfb
+  Regex.from_valid_expr
+  Regex.from_expr
+  Regex.regex_first
+  Regex.regex_follow
+  Regex.arena_consistent
+  Regex.unfold_arena
+  Subset.dfa_from_regex
+  Subset.valid_submap
+  Subset.pick_first
+  Subset.pick_last
+  Subset.pick_script
+  Lang.equiv_dfa_expr
+  Lang.equiv_wdfa_expr
+  Lang.levels_ok
+  Parser.parse
+  Parser.parse_with
+  Parser.repaired
+  Parser.pinned
+  Printer.text
+  Printer.located_with
+  Printer.wf_stmt
+  Printer.erase_grammar
+  Ambiguity.check_ambiguity_best_effort
+  Driver.compile
   (* add new roots above this line *)
   Prelude.pow2.
